@@ -325,3 +325,32 @@ def two_store_block(draw):
     else:
         seq = [("DUP2", None), ("DUP2", None), (kind, None), ("DUP1", None), ("SLOAD" if kind == "SSTORE" else "MLOAD", None), ("SWAP2", None), ("SWAP1", None), (kind2, None)]
     return pre + seq + draw(st.sampled_from([[], [("PUSH", 1)], [("STOP", None)]]))
+
+
+@st.composite
+def kept_loads_block(draw):
+    """several loads whose results stay in the stack across a store that may alias them and whose stored value is built
+    from them (the loads must be scheduled before the store and kept: exercises the forced-in-stack bookkeeping)"""
+    k = draw(st.integers(2, 4))
+    out = []
+    for i in range(k):
+        load = draw(st.sampled_from(["MLOAD", "MLOAD", "SLOAD"]))
+        if draw(st.integers(0, 3)) == 0:
+            out += [("DUP%d" % (k + 1), None), (load, None)]          # address from the stack
+        else:
+            out += [("PUSH", 0x40 + 0x20 * i + draw(st.sampled_from([0, 0, 1]))), (load, None)]
+    depth = k
+    for _ in range(draw(st.integers(1, 2))):
+        a = draw(st.integers(1, depth))
+        b = draw(st.integers(1, depth + 1))
+        out += [("DUP%d" % a, None), ("DUP%d" % b, None), (draw(st.sampled_from(["SUB", "ADD", "AND", "LT", "XOR"])), None)]
+        depth += 1
+    store = draw(st.sampled_from(["MSTORE", "MSTORE", "SSTORE", "MSTORE8"]))
+    if draw(st.booleans()):
+        out += [("DUP%d" % (depth + 1), None), (store, None)]         # symbolic address: may alias every load
+    else:
+        out += [("PUSH", draw(st.sampled_from([0x40, 0x60, 0x80, 0x41]))), (store, None)]
+    depth -= 1
+    tail = draw(st.sampled_from([[], [("SWAP2", None), ("POP", None)], [("SWAP1", None)], [("POP", None)], [("DUP2", None), ("ADD", None)]]))
+    return out + tail
+
